@@ -53,6 +53,12 @@ func NewCaptivePortal(uri string) (*CaptivePortal, error) {
 		return nil, err
 	}
 
+	// Inputs such as "#" or "//" parse as URIs but normalize to the empty
+	// string, which the Captive-Portal option cannot carry.
+	if cp.URI == "" {
+		return nil, fmt.Errorf("captive portal URI %q is empty after normalization", uri)
+	}
+
 	return &CaptivePortal{Portal: cp}, nil
 }
 
